@@ -208,8 +208,19 @@ func propC19(c *ctx) error {
 			ifs.dirErr[pre+faultAt] = true
 		}
 		// ---- matcher
-		matcherKind := r.pick([]string{"suffix", "regexp", "func"})
+		matcherKind := r.pick([]string{"suffix", "regexp", "func", "regexp-top", "regexp-dir", "func-depth"})
 		match := func(p string) bool { return strings.HasSuffix(p, ".html") }
+		// matchers that look at the START or the DEPTH of the path: they must be given the path relative to the
+		// configured sub-directory — the very string the file is registered under
+		reTop, reDir := regexp.MustCompile(`^[^/]+\.html$`), regexp.MustCompile(`^(a|b|part)/.*\.html$`)
+		switch matcherKind {
+		case "regexp-top":
+			match = func(p string) bool { return reTop.MatchString(p) }
+		case "regexp-dir":
+			match = func(p string) bool { return reDir.MatchString(p) }
+		case "func-depth":
+			match = func(p string) bool { return strings.HasSuffix(p, ".html") && strings.Count(p, "/") == 1 }
+		}
 		// ---- implementation
 		m := html.NewTplManager()
 		if sub != "" {
@@ -224,6 +235,10 @@ func propC19(c *ctx) error {
 				perr = m.ParseWithSuffix(ifs, ".html")
 			case "regexp":
 				perr = m.ParseWithRegexp(ifs, regexp.MustCompile(`\.html$`))
+			case "regexp-top":
+				perr = m.ParseWithRegexp(ifs, reTop)
+			case "regexp-dir":
+				perr = m.ParseWithRegexp(ifs, reDir)
 			default:
 				perr = m.Parse(ifs, match)
 			}
@@ -379,7 +394,15 @@ func propC19(c *ctx) error {
 			}
 		}
 		if c.d != nil {
-			m2, err := c.d.ask(J{"op": "fsparse", "suffix": ".html", "entries": entries})
+			// the model's driver matches by suffix: a file the matcher of this case does not accept is presented to it as
+			// an entry that is skipped in the same way (the model skips directories and non-matching files alike)
+			mentries := append([]fsEntry{}, entries...)
+			for k := range mentries {
+				if !mentries[k].Dir && strings.HasSuffix(mentries[k].Path, ".html") && !match(mentries[k].Path) {
+					mentries[k].Dir = true
+				}
+			}
+			m2, err := c.d.ask(J{"op": "fsparse", "suffix": ".html", "entries": mentries})
 			if err != nil {
 				return err
 			}
